@@ -16,8 +16,8 @@ def gen(rng: random.Random, tier: str):
         elif kind == "last_n": c.update(times=rng.sample(range(100), rng.randint(1, 8)), n=rng.randint(0, 9))
         elif kind == "crossfold_records": c.update(k=rng.randint(1, 5))          # one partition: every record is tested, nothing is left to train on
         elif kind == "sample_records": c.update(size=(len(rows) if rng.random() < 0.15 else rng.randint(1, max(1, len(rows) // 2))), repeats=rng.choice([None, 2, 3, 6]), disjoint=rng.random() < 0.6)          # a sample of every record is a sample
-        elif kind == "crossfold_users": c.update(k=rng.randint(2, 4), holdout=rng.choice([["sample_n", 1], ["sample_n", 2], ["sample_frac", 0.5], ["last_n", 1], ["last_n", 0], ["last_frac", 0.4], ["last_frac", 0.01]]))
-        elif kind == "sample_users": c.update(size=rng.randint(1, nu), repeats=rng.choice([None, 2, 4]), disjoint=rng.random() < 0.6, holdout=rng.choice([["sample_n", 1], ["last_n", 2], ["last_frac", 0.5]]))
+        elif kind == "crossfold_users": c.update(k=rng.randint(2, 4), holdout=rng.choice([["sample_n", 1], ["sample_n", 2], ["sample_frac", 0.5], ["last_n", 1], ["last_n", 0], ["last_frac", 0.4], ["last_frac", 0.01], ["sample_n", 50], ["last_n", 50], ["sample_frac", 1.0], ["last_frac", 1.0]]))          # sizes above a user's row count and the whole fraction included
+        elif kind == "sample_users": c.update(size=rng.randint(1, nu), repeats=rng.choice([None, 2, 4]), disjoint=rng.random() < 0.6, holdout=rng.choice([["sample_n", 1], ["last_n", 2], ["last_frac", 0.5], ["sample_n", 50], ["last_frac", 1.0], ["sample_frac", 1.0]]))
         elif kind == "temporal_tz":
             # instants are BASE + k half-hours; cut-offs are placed on record times half of the time (boundary), with a form each
             ks = sorted({r[3] for r in rows}); pick = lambda: (rng.choice(ks) if rng.random() < 0.5 else rng.randint(0, 210))
